@@ -293,6 +293,7 @@ func (c *channel) receiver() {
 			c.routeResponse(resp.Metadata.MessageID, response{nid: c.node.ID(), msg: resp.Message, err: err})
 		}
 
+		vGate("RcvLoopEnd", c.node.ID(), 0)
 		select {
 		case <-c.parentCtx.Done():
 			vEmit("ReceiverExit", c.node.ID(), 0)
